@@ -62,6 +62,33 @@ Theorem damaged_entry_removed : forall deser c t id f x,
 Proof. exact damaged_entry_removed_l. Qed.
 Print Assumptions damaged_entry_removed.
 
+(* entries past their duration are dead (and removed), whatever they hold *)
+Theorem expired_entry_removed : forall deser flt c t id f x,
+  f (fname (i_kind c) id) = Some x -> (i_dur c <> 0)%Z -> (f_ctime x + i_dur c < t)%Z ->
+  let (r, f') := cache_get deser flt c t id f in
+  r = Ret None /\ f' (fname (i_kind c) id) = None.
+Proof. exact expired_entry_removed_l. Qed.
+Print Assumptions expired_entry_removed.
+
+(* entries written by another suds version: a new instance over a directory whose stamp is
+   missing, torn or different removes every entry of every class (foreign files stay) and
+   stamps it; a directory stamped by this version is left alone *)
+Theorem foreign_version_cleared : forall ver t f,
+  (ver_ok ver f = true -> forall m, snd (check_version ver t f) m = f m) /\
+  (ver_ok ver f = false ->
+     (forall k id, snd (check_version ver t f) (fname k id) = None) /\
+     (forall m, starts_with s_suds m = false -> m <> s_version -> snd (check_version ver t f) m = f m) /\
+     ver_ok ver (snd (check_version ver t f)) = true).
+Proof. exact version_check_l. Qed.
+Print Assumptions foreign_version_cleared.
+
+(* put (whatever fails: open, write, close), purge, clear and construction raise nothing *)
+Theorem cache_ops_never_raise : forall ser ver flt c t id o f,
+  fst (cache_put ser flt c t id o f) = Ret tt /\ fst (purge c id f) = Ret tt /\
+  fst (cache_clear f) = Ret tt /\ fst (check_version ver t f) = Ret tt.
+Proof. exact cache_ops_never_raise_l. Qed.
+Print Assumptions cache_ops_never_raise.
+
 (* the cache does hold what was stored: a completed store is found through any instance of
    the same class on the directory while it is fresh *)
 Theorem put_then_get : forall ser deser, format_roundtrips ser deser ->
